@@ -423,7 +423,19 @@ pub struct Actor {
 }
 
 #[derive(Clone, Debug, PartialEq, Eq)]
+pub struct Prelude {
+    pub prop: String,
+    pub verif_seed: u64,
+    pub first: u64,
+    pub count: u64,
+    pub recheck_every: u64,
+}
+
+#[derive(Clone, Debug, PartialEq, Eq)]
 pub struct Scenario {
+    /// scenarios (by generator index) to execute in the same process before this one: needed to
+    /// reproduce a violation that depends on state the library kept from earlier calls
+    pub prelude: Option<Prelude>,
     pub prop: String,
     pub profile: String,
     pub seed: u64,
@@ -442,7 +454,7 @@ pub struct Scenario {
 
 impl Scenario {
     pub fn empty(prop: &str, profile: &str, seed: u64) -> Self {
-        Scenario { prop: prop.into(), profile: profile.into(), seed, knobs: String::new(), dirs: vec![], contents: vec![], files: vec![], clock: 1_700_000_000_000_000_000, actors: vec![], sched: vec![], faults: BTreeMap::new() }
+        Scenario { prelude: None, prop: prop.into(), profile: profile.into(), seed, knobs: String::new(), dirs: vec![], contents: vec![], files: vec![], clock: 1_700_000_000_000_000_000, actors: vec![], sched: vec![], faults: BTreeMap::new() }
     }
 
     pub fn text(&self) -> String {
@@ -451,6 +463,9 @@ impl Scenario {
         s.push_str(&format!("prop {}\n", self.prop));
         s.push_str(&format!("profile {}\n", self.profile));
         s.push_str(&format!("seed {}\n", self.seed));
+        if let Some(p) = &self.prelude {
+            s.push_str(&format!("prelude {} {} {} {} {}\n", p.prop, p.verif_seed, p.first, p.count, p.recheck_every));
+        }
         if !self.knobs.is_empty() {
             s.push_str(&format!("knobs {}\n", self.knobs));
         }
@@ -502,6 +517,10 @@ impl Scenario {
                 "profile" => sc.profile = tok.get(1).unwrap_or(&"").to_string(),
                 "seed" => sc.seed = tok.get(1).and_then(|x| x.parse().ok()).ok_or_else(|| err("bad seed".into()))?,
                 "knobs" => sc.knobs = tok[1..].join(" "),
+                "prelude" => {
+                    let n = |i: usize| tok.get(i).and_then(|x| x.parse::<u64>().ok()).ok_or_else(|| err("bad prelude".into()));
+                    sc.prelude = Some(Prelude { prop: tok.get(1).unwrap_or(&"").to_string(), verif_seed: n(2)?, first: n(3)?, count: n(4)?, recheck_every: n(5)? });
+                }
                 "dir" => sc.dirs.push(unesc_str(tok.get(2).unwrap_or(&"")).map_err(err)?),
                 "content" => {
                     let kind = *tok.get(2).ok_or_else(|| err("content kind".into()))?;
